@@ -126,6 +126,22 @@ Definition imp_remove_arm (i : imp) (a : A) : imp :=
   | ITree s => ITree (tree_remove_arm N aeqb s a)
   end.
 
+(* shape errors raised from inside training before anything is assigned (the repaired code is atomic):
+   another context width than the stored history / the fitted trees, fewer rows than clusters *)
+Definition width_ok (stored new : ctxs) : bool :=
+  match stored, new with
+  | _ :: _, _ :: _ => Nat.eqb (ncols stored) (ncols new)
+  | _, _ => true
+  end.
+Definition train_shape_ok (i : imp) (is_partial : bool) (ds : list A) (cx : option ctxs) : bool :=
+  match i with
+  | INbr s => if is_partial then width_ok (n_cx s) (octx cx) else true
+  | IClu s => (if is_partial then width_ok (k_cx s) (octx cx) && Nat.leb (k_n s) (length (k_cx s) + length ds)
+               else Nat.leb (k_n s) (length ds))
+  | ITree s => if is_partial then match t_nf s, octx cx with Some d, _ :: _ => Nat.eqb d (ncols (octx cx)) | _, _ => true end else true
+  | _ => true
+  end.
+
 Definition cf_is_ts (s : @cf R A) : bool := match c_kind s with KThompson => true | _ => false end.
 (* add_arm's binarizer check: isinstance(_imp, TS) or isinstance(_imp.lp, TS); _Clusters has
    no attribute lp, so the check raises for Clusters whenever a binarizer is given *)
@@ -174,12 +190,14 @@ Definition step (m : mab) (o : op) : mab * out :=
   match o with
   | Fit ds rs cx orc =>
       if fit_args_ok m ds rs cx
-      then let '(i', g', ok) := imp_fit (m_imp m) (m_rng m) ds rs cx orc in
+      then if negb (train_shape_ok (m_imp m) false ds cx) then (m, ORejected) else
+           let '(i', g', ok) := imp_fit (m_imp m) (m_rng m) ds rs cx orc in
            if ok then (mkMab i' true g', ODone) else (mkMab i' (m_fitted m) g', ORejected)
       else (m, ORejected)
   | PartialFit ds rs cx orc =>
       if fit_args_ok m ds rs cx
-      then if m_fitted m
+      then if negb (train_shape_ok (m_imp m) (m_fitted m) ds cx) then (m, ORejected) else
+           if m_fitted m
            then let '(i', g', ok) := imp_partial_fit (m_imp m) (m_rng m) ds rs cx orc in
                 (mkMab i' true g', if ok then ODone else ORejected)
            else let '(i', g', ok) := imp_fit (m_imp m) (m_rng m) ds rs cx orc in
